@@ -107,6 +107,17 @@ func c10Plans(tier string) []core.Trace {
 		for _, pr := range prerots {
 			n := c10Calls(cfg, pr)
 			out = append(out, c10Prefix(c10Head{cfg: cfg, prerot: pr, mode: 0})) // the fault-free run itself
+			if tier == "thorough" && pr == 0 {
+				// sampled pairs of faults: every k1 with a second fault a fixed few calls later
+				for k1 := 0; k1 < n; k1++ {
+					for _, gap := range []int{1, 3, 7} {
+						if k2 := k1 + gap; k2 < n+8 {
+							kinds := (k1 + gap) % 3
+							out = append(out, c10Prefix(c10Head{cfg: cfg, prerot: pr, mode: 1, k: k1, kind: kinds, pair: 1, k2: k2, kind2: (kinds + 1) % 2}))
+						}
+					}
+				}
+			}
 			for k := 0; k < n; k++ {
 				for kind := 0; kind < 3; kind++ {
 					if kind == 2 && c10Configs[cfg].CA == "memca" {
